@@ -47,6 +47,8 @@
 \*      manual trigger and at most all pending downloads; a download run with n > 0 sets LastDownloadAt,
 \*      LastDownload (at least what was fetched, at most what was tried) and removes what was fetched
 \*      from PendingDownload.
+\*      With a context that is already cancelled nothing is fetched, no index is accepted and no version
+\*      becomes available (UpdateIndexes, LoadIndexes for indexes that are not stored, DownloadUpdates).
 \*  F7  restart: a new registry on the same storage dir that runs ScanStorage, LoadIndexes,
 \*      SelectVersions finds every stored file as an available version and the stored indexes' current
 \*      releases; blacklisting and the in-use marks do not survive.
@@ -106,7 +108,8 @@ OkModes == {"ok", "slow"}
 FailModes == {"404", "500", "trunc"}
 
 Req(u, k, a, v) == [u |-> u, k |-> k, a |-> a, v |-> v]
-\* what the update-state part of an outcome demands (F6): mode none | checkok | checkfail | dl
+\* what the update-state part of an outcome demands (F6): mode none | checkok | checkfail | dl, and checkcancel |
+\* dlcancel for calls with a cancelled context (a failure report or no report at all)
 NoU == [mode |-> "none", att |-> <<>>, suc |-> {}, plo |-> {}, phi |-> {}]
 \* one allowed outcome: errs = allowed error classes of the call, v = version of the returned file,
 \* reqs = the exact request sequence, opid = registry state during the call ("" = no operation)
@@ -238,16 +241,24 @@ Step(s, o) ==
           {Out({""}, NoV, [s EXCEPT !.srv[o.u].ffail = IF o.mode \in OkModes THEN @ \ {<<o.r, o.v>>} ELSE @ \cup {<<o.r, o.v>>}],
                <<>>, "", NoU)}
     [] o.op = "SetOnline" -> {Out({""}, NoV, [s EXCEPT !.cfg.online = o.flag], <<>>, "", NoU)}
-    [] o.op = "UpdateIndexes" ->
+    [] o.op = "UpdateIndexes" /\ o.mode = "cancelled" ->
+          {Out({"failed"}, NoV, s, <<>>, "checking", [NoU EXCEPT !.mode = "checkcancel"])}
+    [] o.op = "LoadIndexes" /\ o.mode = "cancelled" ->    \* stored indexes are loaded, nothing is fetched
+          {Out({IF x.oks[1] /\ x.oks[2] THEN "" ELSE "failed"}, NoV, [x.st EXCEPT !.cfg.online = s.cfg.online], <<>>, "", NoU)
+           : x \in Both([s EXCEPT !.cfg.online = FALSE], LoadIndex)}
+    [] o.op = "Download" /\ o.mode = "cancelled" ->
+          {Out({"", "failed"}, NoV, s, <<>>, "downloading",
+               [mode |-> "dlcancel", att |-> InOrder(Pending(s, o.flag, TRUE)), suc |-> {}, plo |-> {}, phi |-> {}])}
+    [] o.op = "UpdateIndexes" /\ o.mode # "cancelled" ->
           {LET any == x.oks[1] \/ x.oks[2] IN
            Out({IF any THEN "" ELSE "failed"}, NoV, x.st, x.reqs, "checking",
                IF any THEN [mode |-> "checkok", att |-> <<>>, suc |-> {}, plo |-> Pending(x.st, TRUE, FALSE), phi |-> Pending(x.st, TRUE, TRUE)]
                ELSE [NoU EXCEPT !.mode = "checkfail"])
            : x \in Both(s, DlIndex)}
-    [] o.op = "LoadIndexes" ->
+    [] o.op = "LoadIndexes" /\ o.mode # "cancelled" ->
           {Out({IF x.oks[1] /\ x.oks[2] THEN "" ELSE "failed"}, NoV, x.st, x.reqs, "", NoU) : x \in Both(s, LoadIndex)}
     [] o.op = "Select" -> {Out({""}, NoV, SelectAll(s), <<>>, "", NoU)}
-    [] o.op = "Download" ->     \* DownloadUpdates(ctx, includeManual = o.flag)
+    [] o.op = "Download" /\ o.mode # "cancelled" ->     \* DownloadUpdates(ctx, includeManual = o.flag)
           LET P == Pending(s, o.flag, TRUE)
               todo == InOrder(P)
               d == DownloadAll(s, todo, 1)
@@ -278,6 +289,7 @@ Step(s, o) ==
 
 \* ------------------------------------------------------------------ F6: what the registry state must look like
 \* update state t after a call whose outcome demands u, coming from update state p at clock c
+RECURSIVE UpdViolations(_, _, _, _)
 UpdViolations(p, c, u, t) ==
     CASE u.mode = "none" -> IF t = p THEN {} ELSE {"update-state-changed"}
       [] u.mode = "checkok" ->
@@ -289,6 +301,8 @@ UpdViolations(p, c, u, t) ==
             (IF t.chkAt > c /\ t.chkErr THEN {} ELSE {"check-error-not-reported"})
             \cup (IF t.succAt = p.succAt THEN {} ELSE {"last-success-moved-on-failure"})
             \cup (IF t.dlAt = p.dlAt /\ t.dlErr = p.dlErr /\ t.lastdl = p.lastdl THEN {} ELSE {"download-report-changed"})
+      [] u.mode = "checkcancel" -> IF t = p THEN {} ELSE UpdViolations(p, c, [u EXCEPT !.mode = "checkfail"], t)
+      [] u.mode = "dlcancel" -> IF t = p THEN {} ELSE UpdViolations(p, c, [u EXCEPT !.mode = "dl"], t)
       [] u.mode = "dl" ->
             IF u.att = <<>> THEN (IF t = p THEN {} ELSE {"update-state-changed"})
             ELSE LET att == Range(u.att)
@@ -303,7 +317,8 @@ UpdViolations(p, c, u, t) ==
 
 \* the notifications ns (sequence of [id, dn, upto, dres, upd]; dn = -1: no details) of a call with operation id
 \* opid (""= none) that went from update state p to t and fetched the sequence att of resources
-NoteViolations(opid, att, p, t, ns) ==
+\* (strict = FALSE, calls with a cancelled context: the progress through the downloads need not be complete)
+NoteViolations(opid, att, p, t, ns, strict) ==
     LET N == Len(ns) IN
     IF opid = "" THEN (IF N = 0 THEN {} ELSE {"state-change-outside-operation"})
     ELSE IF N < 2 THEN {"state-change-not-notified"}
@@ -317,9 +332,9 @@ NoteViolations(opid, att, p, t, ns) ==
                     IN (IF /\ \A j \in D : ns[j].dn = n /\ Range(ns[j].dres) = Range(att) /\ ns[j].upto \in 0..n
                            /\ \A j \in D : \A k \in D : j < k => ns[j].upto <= ns[k].upto
                            /\ \A j \in D : (j + 1 <= N - 1) => (j + 1) \in D              \* once set, details stay until the end
-                           /\ D # {}
+                           /\ strict => D # {}
                         THEN {} ELSE {"download-details"})
-                       \cup (IF \A q \in 1..n : \E j \in D : ns[j].upto = q THEN {} ELSE {"download-progress-not-notified"})
+                       \cup (IF strict => \A q \in 1..n : \E j \in D : ns[j].upto = q THEN {} ELSE {"download-progress-not-notified"})
                ELSE IF \A j \in 1..N : ns[j].dn = -1 THEN {} ELSE {"details-outside-download"})
 
 \* ------------------------------------------------------------------ laws of the model (checked by TLC, UpdFlowGen)
@@ -363,6 +378,11 @@ CallLaws(s) ==
                     v2 == y.st.disk[2].rel[r]
                 IN /\ (y.oks[2] /\ v2 \in 1..6) => y.st.res[r].cur = {v2} /\ y.st.res[r].idx = 2
                    /\ (y.oks[1] /\ v1 \in 1..6 /\ ~(y.oks[2] /\ v2 # 0)) => y.st.res[r].cur = {v1} /\ y.st.res[r].idx = 1
+    \* a cancelled context: nothing is fetched, accepted or made available
+    /\ \A n \in {"UpdateIndexes", "LoadIndexes", "Download"} : \A x \in Step(s, [NoArg(n) EXCEPT !.mode = "cancelled"]) :
+          /\ x.reqs = <<>> /\ x.st.files = s.files /\ \A r \in R : x.st.res[r].av = s.res[r].av
+          /\ x.st.disk = s.disk
+          /\ (n # "LoadIndexes") => x.st = s
     \* F5: signals are never withdrawn
     /\ \A o \in {NoArg("Select"), NoArg("UpdateIndexes"), NoArg("Download")} : \A x \in Step(s, o) : s.upg \subseteq x.st.upg
     /\ \A x \in Step(s, NoArg("Select")) :
